@@ -510,11 +510,12 @@ TrigHb(c) ==
 \* session set-up fails. (a) the initial OffsetFetch of the session's offset manager fails for good (ManagePartition error):
 \* release(false) - no Setup, no Cleanup, heartbeat loop (already running) stopped - and Consume returns the error;
 \* (b) the handler's Setup returns an error: release(true) - Cleanup runs - and Consume returns the error. No claim starts.
-SetupFailKinds == {"ofetch_fail", "ofetch_fail_conn", "ofetch_fail_close", "setup_error", "setup_error_close"}
+SetupFailKinds == {"ofetch_fail", "ofetch_fail_conn", "ofetch_fail_close", "ofetch_fail_load", "ofetch_fail_load_close",
+                   "setup_error", "setup_error_close"}
 SetupFail(c, kind) ==
   LET x == cl[c]
       inHandler == kind \in {"setup_error", "setup_error_close"}
-      closes == kind \in {"ofetch_fail_close", "setup_error_close"} IN
+      closes == kind \in {"ofetch_fail_close", "ofetch_fail_load_close", "setup_error_close"} IN
   /\ kind \in TrigKinds /\ CanTrig(c) /\ x.claims # {} /\ x.closed = "no"
   /\ x.pc = IF inHandler THEN "insetup" ELSE "setup"
   /\ cl' = [cl EXCEPT ![c].pc = IF Bug = "setup_fail_blocks_release" THEN "stuck" ELSE "reterr",
@@ -524,6 +525,23 @@ SetupFail(c, kind) ==
               \o (IF closes THEN <<[ev |-> "close_call", c |-> c]>> ELSE <<>>)
               \o (IF inHandler /\ Bug # "setup_fail_blocks_release" THEN <<[ev |-> "cleanup", c |-> c]>> ELSE <<>>))
   /\ script' = RecTrig(script, c, kind, IF inHandler THEN "setup" ELSE "sync")
+  /\ tb' = tb - 1
+  /\ UNCHANGED <<cfg, co, fb>>
+
+\* the coordinator cannot be found (from the start of the call, or - "late" - once the scripted NOT_COORDINATOR answer to the
+\* first JoinGroup sent the client looking): retryNewSession keeps looking it up, backing off in a select on the closed
+\* channel; the application closes the group meanwhile: Consume returns ErrClosedConsumerGroup and Close completes
+NoCoordClose(c, late) ==
+  LET x == cl[c]
+      kind == IF late THEN "nocoord_late_close" ELSE "nocoord_close" IN
+  /\ kind \in TrigKinds /\ CanTrig(c) /\ x.pc = "join" /\ x.nj = 0 /\ x.closed = "no" /\ cfg.rretry >= 1
+  /\ ~late => x.calls = 1      \* (later calls find the coordinator in the client's cache)
+  /\ cl' = [cl EXCEPT ![c].pc = IF Bug = "lookup_loop_ignores_close" THEN "stuck" ELSE "reterr",
+                      ![c].closed = "closing", ![c].trig = 1, ![c].nj = 1]
+  /\ Emitting((IF late THEN <<[ev |-> "join_req", c |-> c, mid |-> x.mid],
+                              [ev |-> "join_resp", c |-> c, err |-> "notcoord", mid |-> "", gen |-> -1]>> ELSE <<>>)
+              \o <<[ev |-> "close_call", c |-> c]>>)
+  /\ script' = IF late THEN RecJ(RecTrig(script, c, kind, "join"), c, "notcoord") ELSE RecTrig(script, c, kind, "join")
   /\ tb' = tb - 1
   /\ UNCHANGED <<cfg, co, fb>>
 
@@ -573,7 +591,7 @@ AllDone == \A c \in Clients : cl[c].pc = "done"
 
 Next ==
   \/ \E c \in Clients :
-       \/ ConsumeCall(c) \/ (\E k \in SetupFailKinds : SetupFail(c, k)) \/ JoinStale(c) \/ SyncStale(c) \/ TrigMove(c, TRUE) \/ TrigMove(c, FALSE) \/ JoinScripted(c) \/ JoinGenuine(c) \/ SyncScripted(c) \/ SyncGenuine(c) \/ SyncAbort(c)
+       \/ ConsumeCall(c) \/ NoCoordClose(c, TRUE) \/ NoCoordClose(c, FALSE) \/ (\E k \in SetupFailKinds : SetupFail(c, k)) \/ JoinStale(c) \/ SyncStale(c) \/ TrigMove(c, TRUE) \/ TrigMove(c, FALSE) \/ JoinScripted(c) \/ JoinGenuine(c) \/ SyncScripted(c) \/ SyncGenuine(c) \/ SyncAbort(c)
        \/ SetupEnter(c) \/ SetupExit(c) \/ Watcher(c) \/ Release(c) \/ CleanupExit(c)
        \/ AutoCommit(c) \/ FinalCommit(c) \/ HbStop(c) \/ RetErr(c) \/ HbGenuine(c)
        \/ TrigCancel(c) \/ TrigClose(c) \/ TrigHb(c) \/ CloseNormal(c) \/ CloseLeave(c)
